@@ -2163,9 +2163,14 @@ Section ReprojectDs.
       Ok (fst nv, XObj false (pre ++ [(dy, ny); (dx, nx)] ++ post) (Some sr) (out_attrs itol (x_attrs dv) nd)
                         (aupdate (filter (fun nc => keep_pred syd sxd (snd nc)) (x_coords dv)) new) []).
   Proof.
-    intros ((dv & st & sb & n1 & n2 & E1 & E2 & E3 & E4 & E5 & E6) & Hne & Hok).
+    intros ((dv & st & sb & n1 & n2 & E1 & E2 & E3 & E4 & E5 & E6) & Esd & Hne & Hok).
     exists dv. split; [exact E1|].
-    unfold reproject_ds_var. rewrite E1, E2. simpl. rewrite E3.
+    unfold reproject_ds_var. rewrite E1, E2. simpl. rewrite E3, Esd.
+    assert (Hsp : subsetb [syd; sxd] (map fst (x_dims dv)) = true).
+    { rewrite E6, !map_app. cbn [fst snd subsetb forallb map].
+      rewrite !smem_app. cbn [smem existsb]. rewrite !String.eqb_refl.
+      rewrite !orb_true_r. reflexivity. }
+    cbv beta iota. cbn [fst snd]. cbn [subsetb forallb] in Hsp. rewrite Hsp. cbn [negb].
     rewrite (reproject_da_unfold tol itol dv dst nd st sb syd sxd pre n1 n2 post E2 E3 E4 E5 E6 Hne Hok).
     rewrite Hnew. reflexivity.
   Qed.
@@ -2208,7 +2213,7 @@ Section ReprojectDs.
     destruct (mapM_res_In _ _ _ _ Hm Hin) as (nv & Hnv & Hf).
     destruct (Hall nv Hnv) as [(syd & sxd & pre & post & Hg)|(o & Ho & Q1 & Q2 & Q3 & Q4 & Q5)].
     - destruct (geo_var_out nv syd sxd pre post Hg) as (dv & _ & E). rewrite E in Hf. injection Hf as <-.
-      destruct Hg as (_ & _ & Hok).
+      destruct Hg as (_ & _ & _ & Hok).
       destruct (out_dims_facts pre post syd sxd (g_crs dst) ny nx Hok) as (_ & D2 & D3).
       destruct new_lookups as (L1 & L2 & L3).
       set (K := filter (fun nc => keep_pred syd sxd (snd nc)) (x_coords dv)).
@@ -2246,14 +2251,16 @@ Section ReprojectDs.
       destruct (ds_getitem src (fst a0)); [|discriminate].
       destruct (locate_geo_info repaired tol x) as [st0|]; simpl; [|discriminate].
       destruct (gs_box st0).
-      - destruct (reproject_da repaired tol itol x dst nd); simpl; [|discriminate]. intros H; injection H as <-. reflexivity.
+      - match goal with |- context [if ?c then _ else _] => destruct c end.
+        + intros H; injection H as <-. reflexivity.
+        + destruct (reproject_da repaired tol itol x dst nd); simpl; [|discriminate]. intros H; injection H as <-. reflexivity.
       - intros H; injection H as <-. reflexivity. }
     pose proof (mapM_res_lookup _ (fun o0 : xobj => XVar (map fst (x_dims o0)) (x_attrs o0) (x_gm o0))
                                 _ _ nv (fst nv, o) Hnodup Hfst Hm Hin E) as Lv.
     cbn [snd] in Lv.
     destruct (mapM_res_In_fwd _ _ _ nv Hm Hin) as (b & Hb & Hfb). rewrite E in Hfb. injection Hfb as <-.
     pose proof (outs_agree outs Hm) as Hag.
-    destruct Hg as (_ & _ & Hok).
+    destruct Hg as (_ & _ & _ & Hok).
     destruct (out_dims_facts pre post syd sxd (g_crs dst) ny nx Hok) as (_ & D2 & D3).
     destruct new_lookups as (L1 & L2 & L3).
     assert (Cy : lookup dy (x_coords out) = Some cy).
